@@ -134,7 +134,7 @@ contract(
         # no date pinned on the task itself: no start at all, or one inherited from a dated container (a lower bound)
         ("no-own-start", "TStart(self.property, self.scenarioIdx) is None or "
                          "(uf_inherited(self.property, self.scenarioIdx) and some(TStart(self.property, self.scenarioIdx)) >= PStart(self.project))"),
-        ("effort-task", "IsEffortTask(self) and attr(self.property, 'allocate', self.scenarioIdx) is not None and "
+        ("effort-task", "IsEffortTask(self) and EffortOf(self) > 1/1000000000 and attr(self.property, 'allocate', self.scenarioIdx) is not None and "
                         "len(some(attr(self.property, 'allocate', self.scenarioIdx))) > 0"),
         # predecessors are placed: their dates are in the horizon (readiness + C11 of the predecessors)
         ("deps-placed", "forall(d, 'Ref:Dep', implies(DepTask(d) is not None and DepTime(d, self.scenarioIdx) is not None, "
@@ -200,7 +200,7 @@ contract(
             ("cursor", "TaskOk(self)"),
             ("world", "World(self)"),
             K._ss_sel_distinct,
-            ("unfinished", "self.doneEffort >= 0 and self.doneEffort < EffortOf(self)"),
+            ("unfinished", "self.doneEffort >= 0 and self.doneEffort < EffortOf(self) - 1/1000000000"),
             # the intra-slot offset belongs to the slot that contains the dependency bound only (C08: it is not reserved
             # again in a later slot)
             ("not-before-bound", "some(self.currentSlotIdx) >= PIdx(self.project, earliest_start) and self.slotStartOffset >= 0 and "
@@ -232,7 +232,7 @@ contract(
     requires=_sched_common_req + [
         ("backward", "attr(self.property, 'forward', self.scenarioIdx) is not None and not some(attr(self.property, 'forward', self.scenarioIdx))"),
         ("no-own-end", "TEnd(self.property, self.scenarioIdx) is None and TStart(self.property, self.scenarioIdx) is None"),
-        ("effort-task", "IsEffortTask(self) and attr(self.property, 'allocate', self.scenarioIdx) is not None and "
+        ("effort-task", "IsEffortTask(self) and EffortOf(self) > 1/1000000000 and attr(self.property, 'allocate', self.scenarioIdx) is not None and "
                         "len(some(attr(self.property, 'allocate', self.scenarioIdx))) > 0"),
         # successors are placed and the deadline they impose (their start minus the gap of the edge) is inside the horizon
         ("succ-placed", "forall(k, 0, len(SuccList(self)), SuccList(self)[k][0] != self.property and "
@@ -282,7 +282,7 @@ contract(
             ("cursor", "TaskOk(self)"),
             ("world", "World(self)"),
             K._ss_sel_distinct,
-            ("unfinished", "self.doneEffort >= 0 and self.doneEffort < EffortOf(self)"),
+            ("unfinished", "self.doneEffort >= 0 and self.doneEffort < EffortOf(self) - 1/1000000000"),
             ("not-after-deadline", "some(self.currentSlotIdx) <= start_slot_idx and start_slot_idx <= PIdx(self.project, end_date) - 1 "
                                    "and implies(first_booked_slot is not None, some(first_booked_slot) <= start_slot_idx)"),
             ("end-untouched", "TEnd(self.property, self.scenarioIdx) is None"),
